@@ -2433,11 +2433,9 @@ impl<'a> Socket<'a> {
     /// <https://elixir.bootlin.com/linux/v6.9.9/source/net/ipv4/tcp.c#L1472>.
     fn window_to_update(&self) -> bool {
         match self.state {
-            State::SynSent
-            | State::SynReceived
-            | State::Established
-            | State::FinWait1
-            | State::FinWait2 => {
+            // (Not in SYN-RECEIVED: the only segment that state can emit is a SYN|ACK, whose
+            // window field is not scaled and therefore cannot announce more than 65535.)
+            State::SynSent | State::Established | State::FinWait1 | State::FinWait2 => {
                 let new_win = self.scaled_window();
                 if let Some(last_win) = self.last_scaled_window() {
                     new_win > 0 && new_win / 2 >= last_win
@@ -2817,7 +2815,12 @@ impl<'a> Socket<'a> {
             .remote_last_seq
             .max(repr.seq_number + repr.segment_len());
         self.remote_last_ack = repr.ack_number;
-        self.remote_last_win = repr.window_len;
+        // `remote_last_win` is kept in scaled units, but the window field of a SYN is not scaled.
+        self.remote_last_win = if repr.control == TcpControl::Syn {
+            repr.window_len >> self.remote_win_shift
+        } else {
+            repr.window_len
+        };
 
         if repr.segment_len() > 0 {
             self.rtte
